@@ -150,12 +150,13 @@ def run(ctx):
         allc = [c for i, c in enumerate(allc) if (i + ctx.seed) % 2 == 0 or c.get("shape", 0) >= 11]
     pg = write_cases(ctx.path("cases-gen.ndjson"), witness_cases(ctx) + allc)
     t_gen = ctx.drive(std, ["--cases", pg, "--n", "0"], "trace-gen.ndjson")
-    t_rnd = ctx.drive(std, ["--seed", str(ctx.seed), "--n", str(ctx.pick(1200, 9000)), "--max-words", str(ctx.pick(12, 24))],
-                      "trace-rnd.ndjson")
+    # (--invfam: the case analysis of ModInvAlg on real operands - elements of 1, 2, 3.. words against moduli k a + delta)
+    t_rnd = ctx.drive(std, ["--seed", str(ctx.seed), "--n", str(ctx.pick(1200, 9000)), "--max-words", str(ctx.pick(12, 24)),
+                            "--invfam", str(ctx.pick(120, 1200))], "trace-rnd.ndjson")
     # without debug assertions a broken representation invariant is not stopped by an assert: it must show in the values
     pr = write_cases(ctx.path("cases-rel.ndjson"), witness_cases(ctx) + keep + [c for c in allc[:: ctx.pick(6, 3)] if c.get("shape", 0) < 11])
-    t_rel = ctx.drive(rel, ["--cases", pr, "--seed", str(ctx.seed + 1), "--n", str(ctx.pick(200, 1500)), "--max-words", "10"],
-                      "trace-rel.ndjson")
+    t_rel = ctx.drive(rel, ["--cases", pr, "--seed", str(ctx.seed + 1), "--n", str(ctx.pick(200, 1500)), "--max-words", "10",
+                            "--invfam", str(ctx.pick(60, 400))], "trace-rel.ndjson")
     jobs = split_trace(ctx, t_gen, "gen", ctx.pick(4, 8)) + split_trace(ctx, t_rnd, "rnd", ctx.pick(2, 5)) + \
         split_trace(ctx, t_rel, "rel", ctx.pick(1, 3))
     par_monitors(ctx, jobs, threads=ctx.pick(4, 6), spec=SPEC, mon=MON, hooks=(nontrivial, cover, key), timeout=2700)
